@@ -7,6 +7,7 @@ import (
 	"encoding/json"
 	"fmt"
 	"hash/fnv"
+	"io"
 	"os"
 	"os/exec"
 	"path/filepath"
@@ -462,7 +463,7 @@ func parentMain(id, tier string) int {
 				k := reproduces(exe, path, 3)
 				repro = fmt.Sprintf(" (re-executed from the replay file: failed again %d/3 times)", k)
 				if k < 3 {
-					repro += " NONDETERMINISTIC: the same case does not fail on every execution"
+					repro += " -- the case does not fail every time when executed alone in a fresh process: it depends on cases executed earlier in the same process (hidden state) or on nondeterminism of the implementation"
 				}
 			}
 			fmt.Printf("VIOLATION property=%s replay=%s\n", id, path)
@@ -712,4 +713,33 @@ func ensureEnv() {
 	if os.Getenv("VERIF_ROOT") == "" {
 		os.Setenv("VERIF_ROOT", "/verif")
 	}
+}
+
+// ---------------------------------------------------------------------------
+// child contexts: a worker process can run check code with its own Ctx and hand
+// the result back to the shard that started it.
+
+func NewWorkerCtx(prop, tier string) *Ctx { return newCtx(prop, tier, seedFromEnv(), 0, 1) }
+
+func (c *Ctx) WriteResult(w io.Writer) error { return gob.NewEncoder(w).Encode(c.res) }
+
+// Absorb merges the result written by a worker's WriteResult into c.
+func (c *Ctx) Absorb(data []byte) error {
+	r := &ShardResult{}
+	if err := gob.NewDecoder(strings.NewReader(string(data))).Decode(r); err != nil {
+		return err
+	}
+	c.mu.Lock()
+	defer c.mu.Unlock()
+	m := merge([]*ShardResult{c.res, r})
+	m.Samples = append([]string{}, c.res.Samples...)
+	if len(m.Samples) < 4 {
+		for _, s := range r.Samples {
+			if len(m.Samples) < 4 {
+				m.Samples = append(m.Samples, s)
+			}
+		}
+	}
+	c.res = m
+	return nil
 }
